@@ -35,10 +35,11 @@ func init() {
 			"(D6) every write (store, map insert) to a field the waiters' predicates read is followed by a Broadcast on that condition on every path from the write to a return of the function (through unexported helpers: of its callers; one Broadcast per element of a range loop counts; the branch on which the stored value equals the value read before is exempt), or preceded by one in the same critical section of L; get-or-create inserts of fresh objects and removals are exempt (removals are only noted). " +
 			"(D7) one object per key for the objects waiters sleep on: every insert of a freshly created family object (GroupStatus, PeerStatus, topicUpdate) into a map field of a family object is dominated by the miss of a lookup of the same map made in the same write-locked critical section (same lock write-held at lookup and store, not released in between: no double-checked creation without re-check), and no entry of such a registry map is ever deleted (a waiter may still sleep on the removed object's condition). " +
 			"(D8) the cancellation that reaches a wait is the caller's: at every synchronous call of Notify.Wait or of a function that hands one of its own context parameters to such a call (waiting primitives and their callers, up to 3 levels; calls made with go and closures started with go are goroutine boundaries), a function that has a request context of its own (a context.Context parameter, or a stream parameter offering Context()) passes a context derived from it (possibly wrapped by context.With*); a context that comes only from a long-lived field, context.Background/TODO or context.WithoutCancel is reported (the API route GroupDeviceStatus -> WaitForConnectednessChange is one of these chains). " +
+			"(D9) unlock balance: in every function that releases a lock of these types (explicitly or by defer) no Unlock/RUnlock is executed where the lockset says the lock cannot be held in that mode — an explicit release needs the lock possibly held just before it (locally, or by every caller of an unexported helper), and at every return the deferred releases registered on the way are replayed against the locks still possibly held there (defer Unlock plus an explicit Unlock on the same path is reported); notify.Wait counts as release-then-reacquire. A surplus release is the unrecoverable runtime error 'sync: unlock of unlocked mutex': the property's cancelled wait does not return, the process dies. " +
 			"Not decided: that a waiter returns exactly the peers whose status changed (functional content of the diff), fairness/promptness in real time, data races that are not lost wake-ups, behaviour of code that reaches these objects through reflection or unsafe; lock identity is per class, not per instance.",
 		Trusted:     []string{"go/ssa (x/tools v0.29.0)", "sync.Mutex / sync.RWMutex / channel close semantics", "lock identity by owner type + field path; notify.New argument aliasing resolved at construction sites"},
 		Assumptions: []string{"a Notify is only built by notify.New and only stored in the struct field it is constructed for; locks are not passed around as values outside the construction sites"},
-		Floors:      map[string]int{"D1": 10, "D2": 5, "D3": 20, "D4": 9, "D5": 8, "D6": 5, "D7": 6, "D8": 10},
+		Floors:      map[string]int{"D1": 10, "D2": 5, "D3": 20, "D4": 9, "D5": 8, "D6": 5, "D7": 6, "D8": 10, "D9": 16},
 		Run:         runC16,
 	})
 }
@@ -1362,6 +1363,8 @@ func runC16(c *Ctx) {
 	lap("checkD7")
 	a.checkD8()
 	lap("checkD8")
+	a.checkD9()
+	lap("checkD9")
 }
 
 // ---------- D1
@@ -3083,6 +3086,111 @@ func (a *c16An) releasedBetween(x, y ssa.Instruction, k string) bool {
 		}
 	}
 	return false
+}
+
+// ---------- D9: unlock balance
+
+// checkD9: in every function that releases a lock of the family (explicitly or by defer), no
+// release is executed at a point where the lockset says the lock cannot be held: an explicit
+// Unlock/RUnlock needs the lock (in that mode) possibly held just before it (locally, or held
+// by every caller for an unexported helper); at every return the deferred releases that can
+// have been registered are replayed against the locks possibly still held there. notify.Wait
+// is release-then-reacquire (net zero) and the locks a Notify method releases for its caller
+// are covered by D3 holds-L. A release of a lock that is not held is "fatal error: sync:
+// unlock of unlocked mutex", which no recover can stop.
+func (a *c16An) checkD9() {
+	c := a.c
+	n := 0
+	for _, fn := range a.w.ModFuncs {
+		fl := a.flow(fn)
+		if len(fl.may) == 0 {
+			continue
+		}
+		type rel struct {
+			in  ssa.Instruction
+			key string
+			op  c16Op
+		}
+		var explicit, deferred []rel
+		for _, b := range fn.Blocks {
+			for _, in := range b.Instrs {
+				ci, ok := in.(ssa.CallInstruction)
+				if !ok {
+					continue
+				}
+				op, key, ok := a.opOf(ci)
+				if !ok || key == "" || op.WG || op.Probe || strings.HasPrefix(key, "~") || strings.HasPrefix(key, "?") {
+					continue
+				}
+				if !a.inScope(c16KeyClass(key)) {
+					continue
+				}
+				if op.Deferred {
+					deferred = append(deferred, rel{in, key, op})
+				} else if !op.Acquire {
+					explicit = append(explicit, rel{in, key, op})
+				}
+			}
+		}
+		hasRelease := len(explicit) > 0
+		for _, d := range deferred {
+			if !d.op.Acquire {
+				hasRelease = true
+			}
+		}
+		if !hasRelease {
+			continue
+		}
+		n++
+		c.analysed(fn)
+		var bad []string
+		var pos token.Pos
+		note := func(in ssa.Instruction, msg string) {
+			bad = append(bad, msg)
+			if !pos.IsValid() {
+				pos = posOf(in)
+			}
+		}
+		for _, r := range explicit {
+			if !a.mayAt(r.in)[r.key] {
+				note(r.in, fmt.Sprintf("%s is released at %s where it cannot be held in that mode (possibly held there: %v)", c16KeyClass(r.key), c.pos(posOf(r.in)), a.mayAt(r.in).list()))
+			}
+		}
+		if len(deferred) > 0 {
+			for _, ret := range returnsOf(fn) {
+				held := a.mayAt(ret).clone()
+				// last registered runs first
+				for i := len(deferred) - 1; i >= 0; i-- {
+					d := deferred[i]
+					if !instrReaches(d.in, ret) {
+						continue
+					}
+					if d.op.Acquire {
+						held[d.key] = true
+						continue
+					}
+					if !held[d.key] {
+						note(ret, fmt.Sprintf("the deferred release of %s (registered at %s) runs at the return at %s, where the lock has already been released on every path (possibly held there: %v)", c16KeyClass(d.key), c.pos(posOf(d.in)), c.pos(posOf(ret)), a.mayAt(ret).list()))
+						continue
+					}
+					delete(held, d.key)
+				}
+			}
+		}
+		sort.Strings(bad)
+		bad = c16Uniq(bad)
+		c.check(len(bad) == 0, "D9", fnName(fn)+"+unlock-balance", func() token.Pos {
+			if pos.IsValid() {
+				return pos
+			}
+			return fn.Pos()
+		}(),
+			"every release (explicit or deferred) of a family lock is made where the lock can be held",
+			"a lock is released more often than it is taken on a path of this function: "+strings.Join(bad, "; ")+" — the Go runtime stops the whole process with \"fatal error: sync: unlock of unlocked mutex\" (not recoverable: the request that takes this path crashes the service), and until then the lock protects nothing")
+	}
+	if n == 0 {
+		c.undecided("D9", "unlock-balance", token.NoPos, "no function releasing a lock of the family found: anchors not found")
+	}
 }
 
 // ---------- D8: the cancellation that reaches a wait is the caller's
